@@ -74,6 +74,59 @@ def _chunk(args):
     return stats, fails
 
 
+def _run_span(l2_path, path, lines, first_idx, seed, handler):
+    """run the given case lines in ONE fresh process; returns (stats, fails) or None if the process died"""
+    import tempfile
+    tmp = tempfile.NamedTemporaryFile("wb", suffix=".ndjson", delete=False, dir=os.path.dirname(path))
+    try:
+        data = b"\n".join(lines) + b"\n"
+        tmp.write(data)
+        tmp.close()
+        try:
+            with ProcessPoolExecutor(1, initializer=_init, initargs=(l2_path,)) as ex:
+                return ex.submit(_chunk, (tmp.name, 0, len(data), first_idx, seed, handler)).result()
+        except BrokenProcessPool:
+            return None
+    finally:
+        os.unlink(tmp.name)
+
+
+def _isolate(l2_path, task):
+    path, off, nbytes, first_idx, seed, handler = task
+    with open(path, "rb") as f:
+        f.seek(off)
+        lines = [l for l in f.read(nbytes).splitlines() if l.strip()]
+    stats = {"n": 0, "ok": 0, "unspec": 0, "err_expected": 0, "numpy_checked": 0}
+    fails = []
+    lo = 0
+    while lo < len(lines):
+        r = _run_span(l2_path, path, lines[lo:], first_idx + lo, seed, handler)
+        if r is not None:
+            for k in stats:
+                stats[k] += r[0].get(k, 0)
+            fails.extend(r[1])
+            break
+        # bisect for the first case that kills the process
+        a, b = lo, len(lines)          # invariant: running lines[lo:b] dies
+        while b - a > 1:
+            mid = (a + b) // 2
+            if _run_span(l2_path, path, lines[lo:mid], first_idx + lo, seed, handler) is None:
+                b = mid
+            else:
+                a = mid
+        culprit = a
+        r = _run_span(l2_path, path, lines[lo:culprit], first_idx + lo, seed, handler) if culprit > lo else None
+        if r is not None:
+            for k in stats:
+                stats[k] += r[0].get(k, 0)
+            fails.extend(r[1])
+        stats["n"] += 1
+        fails.append((first_idx + culprit, json.loads(lines[culprit]), None, None,
+                      "CRASH: the Python process died on this case (segfault/abort in libawkward under the Python layer)"))
+        lo = culprit + 1
+    return stats, fails
+
+
 def replay_l2(l2_path, cases_path, handler, seed=0, jobs=16, chunk=400, sample_cases=None, max_cases=None):
     chunks = replay._file_chunks(cases_path, chunk, max_cases)
     if sample_cases and len(chunks) * chunk > sample_cases:
@@ -84,15 +137,24 @@ def replay_l2(l2_path, cases_path, handler, seed=0, jobs=16, chunk=400, sample_c
     total = {"n": 0, "ok": 0, "unspec": 0, "err_expected": 0, "numpy_checked": 0}
     fails = []
     tasks = [(c[0], c[1], c[2], c[3], seed, handler) for c in chunks]
+    results = [None] * len(tasks)
     try:
         with ProcessPoolExecutor(jobs, initializer=_init, initargs=(l2_path,)) as ex:
-            for stats, fl in ex.map(_chunk, tasks):
-                for k in total:
-                    total[k] += stats.get(k, 0)
-                fails.extend(fl)
+            futs = [ex.submit(_chunk, t) for t in tasks]
+            for k, fu in enumerate(futs):
+                try:
+                    results[k] = fu.result()
+                except BrokenProcessPool:
+                    pass
     except BrokenProcessPool:
-        fails.append((-1, {"act": "l2", "note": "a pool process died"}, None, None,
-                      "CRASH: a Python process running the repository's Python layer died (segfault/abort in libawkward)"))
+        pass
+    for k, t in enumerate(tasks):
+        if results[k] is None:
+            results[k] = _isolate(l2_path, t)          # some process died: find the case(s) that kill it
+    for stats, fl in results:
+        for k in total:
+            total[k] += stats.get(k, 0)
+        fails.extend(fl)
     total["failed"] = len(fails)
     return total, fails
 
@@ -120,9 +182,19 @@ def expect(case, fn, st, stats, to_value=None):
                 stats["err_expected"] += 1
             return None
         return "spec: value expected; library raised %s: %s" % (type(e).__name__, str(e)[:200])
+    if isinstance(out, ak.Array):
+        try:
+            verr = ak.validity_error(out)
+        except ORDINARY as e:
+            verr = "validity_error raised: %s" % e
+        if verr is not None:
+            return "result fails validity: %r" % (str(verr).split("\n")[0][:160],)
+    try:
+        got = to_value(out) if to_value else ak.to_list(out)
+    except ORDINARY as e:
+        return "tojson raised: %s" % (str(e).split("\n")[0][:160],)
     if exp["ok"] == 0:
-        return "spec: must raise; library returned %s" % (json.dumps(ak.to_list(out), default=str)[:200],)
-    got = to_value(out) if to_value else ak.to_list(out)
+        return "spec: must raise; library returned %s" % (json.dumps(_plain(got), default=str)[:200],)
     want = replay.vjson_to_py(exp["v"])
     if not replay.values_equal(_plain(got), want):
         return "value differs: library %s" % (json.dumps(_plain(got), default=str)[:300],)
@@ -306,7 +378,9 @@ def h_c16(case, pick, st, stats):
     # ---- arrow
     if "unknown" not in ty and "union[" not in ty:      # (unions through Arrow: not judged, see run_C16's assumptions)
         import pyarrow
-        opts = dict(list_to32=pick([False, True]), string_to32=pick([True, False]))
+        # allow_tensor=False: with the default (True) a multidimensional NumpyArray becomes a pyarrow.Tensor, which
+        # from_arrow does not read and which cannot be nested in another Arrow array (observed; not judged here)
+        opts = dict(list_to32=pick([False, True]), string_to32=pick([True, False]), allow_tensor=False)
         try:
             pa = ak.to_arrow(A, **opts)
         except ORDINARY as e:
@@ -403,3 +477,125 @@ def h_c17_types(case, pick, st, stats):
     if not (back.type == typ) or back.length != 3:
         return "re-parsed type prints the same (%r) but is not equal to the original" % (printed_full,)
     return None
+
+
+# ------------------------------------------------------------------ C07 (Python half): ak.cartesian / ak.argcartesian
+def h_c07_cartesian(case, pick, st, stats):
+    ak = st["ak"]
+    A = ak.Array(to_ext_layout(case["from"], pick))
+    B = ak.Array(to_ext_layout(case["aux"], pick))
+    ax = case["args"]["axis"]
+    form = pick(["list", "dict"])
+
+    def run():
+        if form == "dict":
+            return ak.cartesian({"0": B, "1": A}, axis=ax)
+        return ak.cartesian([B, A], axis=ax)
+    why = expect(case, run, st, stats)
+    if why:
+        return "cartesian(%s, axis=%d): %s" % (form, ax, why)
+    if case["exp"]["ok"] == 1 and ax >= 0:
+        # argcartesian realises cartesian: indexing the operands with the positions gives the same pairs
+        try:
+            pos = ak.argcartesian([B, A], axis=ax)
+            want = ak.to_list(ak.cartesian([B, A], axis=ax))
+            got = ak.to_list(ak.zip((B[pos["0"]], A[pos["1"]]))) if ax == 0 else None
+            if got is not None and _plain(got) != _plain(want):
+                return "argcartesian does not realise cartesian: %s vs %s" % (json.dumps(_plain(got))[:150], json.dumps(_plain(want))[:150])
+        except ORDINARY as e:
+            return "argcartesian raised %s: %s" % (type(e).__name__, str(e)[:150])
+    return None
+
+
+# ------------------------------------------------------------------ the Python halves of C01/C03/C05/C06/C07/C09: the same cases
+# through the high-level functions of /repo's Python layer (ak.num, ak.flatten, ak.local_index, ak.pad_none, reducers,
+# ak.sort/argsort, ak.combinations, ak.Array.__getitem__, ak.is_none)
+def _py_slice_item(it):
+    nb = 99999
+    k = it["k"]
+    if k == "at":
+        return it["i"]
+    if k == "range":
+        return slice(None if it["a"] == nb else it["a"], None if it["b"] == nb else it["b"], None if it["s"] == nb else it["s"])
+    if k == "newaxis":
+        return None
+    if k == "ellipsis":
+        return Ellipsis
+    if k == "field":
+        return it["key"]
+    if k == "fields":
+        return list(it["keys"])
+    if k == "arr":
+        return _STATE["np"].array(it["is"], dtype=_STATE["np"].int64)
+    if k == "arr2":
+        return _STATE["np"].array(it["is"], dtype=_STATE["np"].int64).reshape(-1, it["cols"])
+    if k == "missing":
+        return _STATE["ak"].Array([None if x == nb else x for x in it["is"]])
+    if k == "jagged":
+        return _STATE["ak"].Array([[None if x == nb else x for x in sub] for sub in it["js"]])
+    raise ValueError(k)
+
+
+def h_generic(case, pick, st, stats):
+    ak, np = st["ak"], st["np"]
+    act = case["act"]
+    a = case.get("args", {})
+    A = ak.Array(to_ext_layout(case["from"], pick))
+    if act == "num":
+        fn = lambda: ak.num(A, axis=a["axis"])
+    elif act == "flatten":
+        fn = lambda: ak.flatten(A, axis=a["axis"])
+    elif act == "localindex":
+        fn = lambda: ak.local_index(A, axis=a["axis"])
+    elif act == "pad":
+        fn = lambda: ak.pad_none(A, a["target"], axis=a["axis"], clip=bool(a["clip"]))
+    elif act == "reduce":
+        f = {"count": ak.count, "count_nonzero": ak.count_nonzero, "sum": ak.sum, "prod": ak.prod, "any": ak.any, "all": ak.all,
+             "min": ak.min, "max": ak.max, "argmin": ak.argmin, "argmax": ak.argmax}[a["reducer"]]
+        fn = lambda: f(A, axis=a["axis"], keepdims=bool(a["keepdims"]), mask_identity=bool(a["mask"]))
+    elif act in ("sort", "argsort"):
+        f = ak.sort if act == "sort" else ak.argsort
+        fn = lambda: f(A, axis=a["axis"], ascending=bool(a["asc"]), stable=bool(a["stable"]))
+    elif act == "comb":
+        fn = lambda: ak.combinations(A, a["n"], replacement=bool(a["repl"]), axis=a["axis"])
+    elif act == "isnone":
+        fn = lambda: ak.is_none(A)
+    elif act == "slice":
+        if any(it["k"] == "jagged" and (len(it["js"]) == 0 or all(len(x) == 0 for x in it["js"])) for it in a["items"]) or \
+           any(it["k"] == "missing" and all(x == 99999 for x in it["is"]) for it in a["items"]):
+            stats["unspec"] += 1      # ak.Array([]) / ak.Array([[]]) / ak.Array([None]) have no integer type: not the same index
+            return None
+        items = [_py_slice_item(it) for it in a["items"]]
+        where = items[0] if len(items) == 1 else tuple(items)
+        fn = lambda: A[where]
+    elif act == "tolist":
+        fn = lambda: A
+    else:
+        stats["unspec"] += 1
+        return None
+
+    def val(out):
+        if isinstance(out, (ak.Array, ak.Record)):
+            v = ak.to_list(out)
+        elif isinstance(out, np.ndarray):
+            v = out.tolist()
+        else:
+            v = out
+        if act == "isnone":
+            v = [1 if x else 0 for x in v]
+        return v
+    if act == "flatten" and case["exp"]["ok"] == 0:
+        # the C++ method refuses axis 0; ak.flatten documents its own meaning for it: "axis=0 ... only removes missing
+        # values at the top level" -- either that value or an error conforms to the high-level function
+        try:
+            out = fn()
+        except ORDINARY:
+            stats["err_expected"] += 1
+            return None
+        want = [x for x in ak.to_list(A) if x is not None]
+        if _plain(ak.to_list(out)) != _plain(want):
+            return "flatten via the Python layer: axis %d normalises to 0, documented result %s, library %s" % (
+                a["axis"], json.dumps(_plain(want))[:150], json.dumps(_plain(ak.to_list(out)))[:150])
+        return None
+    why = expect(case, fn, st, stats, to_value=val)
+    return None if why is None else "%s via the Python layer: %s" % (act, why)
